@@ -391,7 +391,12 @@ fn radix_literal(digits: &str, radix: u32) -> Option<Lit> {
     }
     let mut v: u128 = 0;
     for c in digits.chars() {
-        v = v.checked_mul(radix as u128)?.checked_add(c.to_digit(radix)? as u128)?;
+        let d = c.to_digit(radix)? as u128;
+        // more than 128 significant bits: certainly more than 32
+        v = match v.checked_mul(radix as u128).and_then(|x| x.checked_add(d)) {
+            Some(x) => x,
+            None => return Some(Lit::Overflow),
+        };
     }
     if v <= 0xFFFF {
         Some(Lit::Integer((v as u16) as i16 as i32))
